@@ -450,6 +450,9 @@ def units(tier, seed):
     for (L, T) in NS[tier]:
         for model in (1, 2, 3, 4):
             us.append({'harness': 'history', 'model': model, 'L': L, 'T': T})
+    # long lifetimes for the percentage-drawdown model: drawdown rate x lifetime > 1 drives the linear decline below the injection temperature
+    for (L, T) in ([(6, 1)] if tier == 'quick' else [(6, 1), (10, 1), (6, 2), (25, 1)]):
+        us.append({'harness': 'history', 'model': 4, 'L': L, 'T': T})
     for N in META['bounds'][tier]['redrilling series length N']:
         us.append({'harness': 'redrilling', 'N': N})
     return us
